@@ -384,6 +384,18 @@ def fmtCheck19 : Option (Bool × Nat) → String | some (f, c) => s!"{if f then 
 def hex2 (b : Nat) : String := String.ofList [hexDigit (b / 16), hexDigit (b % 16)]
 def ordName : Ordering → String | .lt => "Less" | .eq => "Equal" | .gt => "Greater"
 
+/-- the panic of `Rust.sub`: an unsigned subtraction below zero. The harness is a release build without overflow checks, where
+    the same subtraction WRAPS; the translated functions follow the convention "underflow = panic" (a debug build). -/
+def wrapMsg : String := "attempt to subtract with overflow"
+
+/-- a predicted text with `?WRAP` components against an observed text: such a component stands for any VALUE the wrapped
+    arithmetic of the release build produced (an ordering or a number), never for `panic` -/
+def matchesWrap (g obs : String) : Bool :=
+  let gs := g.splitOn "."
+  let os := obs.splitOn "."
+  gs.length == os.length && (gs.zip os).all fun (a, b) =>
+    if a == "?WRAP" then b == "Less" || b == "Equal" || b == "Greater" || (b.length > 0 && b.toList.all Char.isDigit) else a == b
+
 /-- `none` = an instruction that is not replayed (`fcard`: f64); `some none` = `stuck` (an operand reference dangles or is
     not a Bdd); otherwise the outcome of the translated functions -/
 def exec19 (vs : VSet) (pool : Array Arr) (locals : Array V19) (ins : String) : Option (Option (Outcome V19)) :=
@@ -478,7 +490,9 @@ def exec19 (vs : VSet) (pool : Array Arr) (locals : Array V19) (ins : String) : 
       let set ← BooleanExpression_support_set F e
       pure ("[" ++ ".".intercalate (set.toList.mergeSort (fun p q => decide (p ≤ q))) ++ "]"))
   | "dot" => with1 0 fun x => T (dotText x (arg 1 == "1"))
-  | "card" => with1 0 fun x => T ((Bdd_exact_cardinality F x).map toString)
+  | "card" => with1 0 fun x => T (match Bdd_exact_cardinality F x with
+      | .panic m => if m == wrapMsg then .ok "?WRAP" else .panic m
+      | o => o.map toString)
   | "clause_card" => with1 0 fun x => T ((Bdd_exact_clause_cardinality F x).map toString)
   | "fcard" => none
   | "witness" => with1 0 fun x => T ((Bdd_sat_witness x).map fmtOptVal19)
@@ -534,8 +548,14 @@ def exec19 (vs : VSet) (pool : Array Arr) (locals : Array V19) (ins : String) : 
       let (r, _) ← Bdd_read_as_string (Gen.Rust.Reader.ofSlice (Gen.Rust.utf8Bytes t))
       pure (match r with | .ok b => some b | .error _ => none))
   | "cmp" => with2 0 1 fun x y => T (do
-      let c ← Bdd_cmp_cardinality F x y
-      pure s!"{ordName (Bdd_cmp_size x y)}.{ordName c}.{ordName (Bdd_cmp_structural x y)}.{if x == y then 1 else 0}")
+      -- `exact_cardinality` of an INVALID diagram (a decision variable ≥ num_vars, e.g. what `mk_dnf` builds from clauses over
+      -- foreign variables) subtracts below zero: the translation panics there (as a debug build does), the harness' release
+      -- build wraps the u16 and shifts by up to 65535 bits. That component is then not predicted (`?WRAP`); the others are.
+      let c : String ← match Bdd_cmp_cardinality F x y with
+        | .ok o => pure (ordName o)
+        | .panic m => if m == wrapMsg then pure "?WRAP" else Outcome.panic m
+        | .err m => Outcome.err m
+      pure s!"{ordName (Bdd_cmp_size x y)}.{c}.{ordName (Bdd_cmp_structural x y)}.{if x == y then 1 else 0}")
   | _ => none
 
 /-- instructions whose result is always a text (an observed `|…|` text of theirs is NOT a Bdd operand) -/
@@ -547,9 +567,10 @@ def textInstr (name : String) : Bool :=
 
 /-- replays programs (`prog/prog/…`, instructions separated by `;`) against the observed result texts; every instruction works
     on the OBSERVED values of its operands. Returns (replayed, not replayed, disagreements). -/
-def replay19 (vs : VSet) (pool : Array Arr) (progs texts : String) : Nat × Nat × List String := Id.run do
+def replay19 (vs : VSet) (pool : Array Arr) (progs texts : String) : Nat × Nat × Nat × List String := Id.run do
   let mut replayed := 0
   let mut unre := 0
+  let mut wraps := 0
   let mut dis : List String := []
   for (prog, text) in (progs.splitOn "/").zip (texts.splitOn "/") do
     if prog == "~" then continue
@@ -564,21 +585,26 @@ def replay19 (vs : VSet) (pool : Array Arr) (progs texts : String) : Nat × Nat 
           | none => "stuck"
           | some (.ok (.B x)) => showArr x
           | some (.ok (.T t)) => if t.isEmpty then "~" else t
-          | some (.panic m) => if isFuel m then "panic:fuel" else "panic"
+          -- an unsigned subtraction below zero anywhere in the translated function (e.g. `most_positive_valuation` of an
+          -- invalid diagram): the release build wraps and goes on — the outcome of this instruction is not predicted
+          | some (.panic m) => if isFuel m then "panic:fuel" else if m == wrapMsg then "?WRAPALL" else "panic"
           | some (.err _) => "err"
-        if g != res then dis := dis ++ [s!"{ins}->{(g.take 120).toString}"]
+        if g != res then
+          if g == "?WRAPALL" then wraps := wraps + 1
+          else if (g.splitOn "?WRAP").length > 1 && matchesWrap g res then wraps := wraps + 1
+          else dis := dis ++ [s!"{ins}->{(g.take 120).toString}"]
       -- the local of this instruction, as observed
       locals := locals.push (if textInstr name || res == "panic" || res == "stuck" || res == "none" then .T res
         else match parseArr? res with | some x => .B x | none => .T res)
-  return (replayed, unre, dis)
+  return (replayed, unre, wraps, dis)
 
 def verdict19 (n : Nat) (poolS progs texts : String) (tag : String) : Verdict :=
   let pool : Option (List Arr) := if poolS == "~" then some [] else (poolS.splitOn "/").mapM parseArr?
   match pool, BddVariableSet_new ((List.range n).map fun i => s!"x{i}").toArray with
   | some pool, .ok vs =>
-    let (rep, unre, dis) := replay19 vs pool.toArray progs texts
+    let (rep, unre, wraps, dis) := replay19 vs pool.toArray progs texts
     { agree := dis.isEmpty, model := if dis.isEmpty then "" else "gen:" ++ ";".intercalate (dis.take 3),
-      nontrivial := rep > 0, tags := [tag, s!"replayed{rep}", s!"unreplayed{unre}"] }
+      nontrivial := rep > 0, tags := [tag, s!"replayed{rep}", s!"unreplayed{unre}"] ++ (if wraps > 0 then [s!"wrapped{wraps}"] else []) }
   | _, _ => Verdict.bad "args"
 
 /-! ### C20.budget: a sink that accepts `budget` bytes in total, then fails -/
